@@ -470,3 +470,35 @@ def compare_bw(ctx, name, ci, cm, tol, case, sigprefix, kappa=1.0, prior_var=Non
     dQ = float(np.max(np.abs(Qi - Qm) / scq)) / kappa
     ok &= ctx.dev(f"{name}.bw.Q", dQ, tol, case=case, sig=f"{sigprefix}:bw.Q", what=f"{name} backward noise deviates by {dQ:.3e} (relative to filter variances, / kappa)")
     return ok
+
+
+# ------------------------------------------------------------------------------------------------
+# non-finite implementation states
+
+
+def state_is_finite(sol) -> bool:
+    import jax
+
+    leaves = jax.tree_util.tree_leaves((sol.u, sol.output_scale))
+    return all(bool(np.all(np.isfinite(np.asarray(x, dtype=np.float64)))) for x in leaves)
+
+
+def nonfinite_signature(ctx, cfg: Config, stepper: "ModelStepper", s0, t, h) -> tuple[str, str]:
+    """The implementation returned a non-finite state from finite input `s0`. Ask the model why.
+    Returns (signature, explanation).  Known class (finding D8): dynamic calibration with an *exactly* zero whitened
+    residual (local scale 0 -> zero process noise -> 0/0 in the update)."""
+    if cfg.solver.startswith("dynamic"):
+        try:
+            tr1s = stepper.transitions(h, Fraction(1))
+            ups = [np.array(ctx.drv.call("sv_apply_mean", stepper.N, *pc_args(tr), *st_args(st)), dtype=object) for tr, st in zip(tr1s, s0)]
+            lin0 = stepper.linearise(ups, t + h)
+            zero = []
+            for (H, b, R), m in zip(lin0, ups):
+                r = [sum(H[i][j] * m[j] for j in range(len(m))) + b[i] for i in range(len(b))]
+                zero.append(all(x == 0 for x in r))
+            if (cfg.fact == "bd" and any(zero)) or all(zero):
+                return ("dynamic:zero-residual:nan", "solver_dynamic: the whitened residual of the mean-only prediction is exactly zero "
+                        "(a solution component is a polynomial of degree <= q); local scale 0 -> 0/0 -> NaN")
+        except Exception:  # noqa: BLE001
+            pass
+    return (f"nonfinite-state:{cfg.fact}:{cfg.solver}:{cfg.strategy}:{cfg.lin}", "implementation returned a non-finite state from a finite state")
